@@ -76,6 +76,33 @@ theorem ideal_verdict_rejects_trans (p : Nat) (d : Desc) (n : Nat) (init : List 
     idealVerdict p d n init overrides claimed = false :=
   satisfies_false_of_trans p d _ n claimed s hs t ht hne
 
+/-- Auxiliary segment: the ideal verdict with a corrupted auxiliary trace is `reject` as soon as
+the main statement is false, or the corruption is a non-zero shift of an asserted column, or a
+non-zero change of a cell whose preceding step is not exempt, or of an asserted cell. -/
+theorem ideal_verdict_aux_rejects (p : Nat) (d : Desc) (n : Nat) (init : List Nat)
+    (overrides : List (Nat × Nat × Nat)) (claimed : List (List Nat)) (c : AuxCorruption)
+    (hd : c.delta % p ≠ 0)
+    (h : (c.row = none ∧ ∃ a ∈ d.auxAsserts, a.col = c.col) ∨
+         (∃ r, c.row = some r ∧ ((1 ≤ r ∧ r - 1 < n - d.exemptions) ∨ auxAsserted d c.col r = true))) :
+    idealVerdictAux p d n init overrides claimed (some c) = false := by
+  unfold idealVerdictAux auxCorruptionSatisfied
+  simp only [if_neg hd]
+  rcases h with ⟨hr, a, ha, hac⟩ | ⟨r, hr, h⟩
+  · rw [hr]
+    have : d.auxAsserts.any (fun a => a.col == c.col) = true :=
+      List.any_eq_true.2 ⟨a, ha, by simp [hac]⟩
+    simp [this]
+  · rw [hr]
+    rcases h with ⟨h1, h2⟩ | h
+    · simp [h1, h2]
+    · simp [h]
+
+/-- without a corruption the extended verdict is the plain one -/
+theorem ideal_verdict_aux_none (p : Nat) (d : Desc) (n : Nat) (init : List Nat)
+    (overrides : List (Nat × Nat × Nat)) (claimed : List (List Nat)) :
+    idealVerdictAux p d n init overrides claimed none = idealVerdict p d n init overrides claimed := by
+  simp [idealVerdictAux]
+
 /-- Conversely a `reject` of the ideal verdict always has such a witness (nothing else makes a
 statement false). -/
 theorem ideal_reject_has_witness (p : Nat) (d : Desc) (rows : List (List Nat)) (n : Nat)
